@@ -116,6 +116,7 @@ func (k *c10case) try(class string, b uint64, forged []byte) {
 	c := k.c
 	c.Count("tamperings", 1)
 	c.Count("tamper:"+class, 1)
+	c.Distinct("nontrivial", fw.Hash64(k.root, b, class))
 	owner, _ := k.model.Owner(b)
 	trueVal := k.model[owner].Val
 	var h, val []byte
@@ -405,7 +406,7 @@ func runC10(c *fw.Ctx) {
 			break
 		}
 	}
-	c.Distinct("nontrivial", fw.Hash64(fmt.Sprintf("%x", root), mode))
+	c.Distinct("tries", fw.Hash64(fmt.Sprintf("%x", root), mode))
 	if c.Idx < 2 {
 		c.Sample(map[string]any{"trie": desc, "honest_proof_of_block_1_hex": fmt.Sprintf("%x", k.honest[0])})
 	}
@@ -414,12 +415,13 @@ func runC10(c *fw.Ctx) {
 
 func init() {
 	fw.Register(&fw.Prop{
-		ID:    "C10",
-		Level: "exploration",
+		ID:           "C10",
+		EvalCounters: []string{"tamperings", "honest_proofs_verified"},
+		Level:        "exploration",
 		Rule: "each case builds a weighted trie of 2..10 keys (a fifth of the values are 80..160 bytes long; after a first commit a third of the values are replaced by different values of the same weight) (in memory / committed at level 0..4 / committed and reloaded from the hash). Honest half: every block 1..W proves to the reference root with the owner's value. Adversarial half: for every block (thorough) / first, last and three random blocks (quick) the honest proof is decoded with the exported Persist* types, " +
 			"tampered and re-encoded: T1 sum-preserving re-weighting of claimed child weights in each branch (all ordered sibling pairs, deltas 1, 2 and the whole weight; same tail and honest tails of other blocks), T2 sum-changing re-weighting, T3 swapped sibling entries/hashes, T4 nodes or whole proofs from other blocks, positions and another trie, " +
 			"T5 dropped/duplicated/reordered/truncated elements, T6 edited short keys, child weights, value bytes and weights, T7 type confusion (hash/nil/value node in place of an element), T8 bit flips and raw splices. A forged proof is a violation iff verification returns no error, the trusted root and a value different from the true owner's. " +
-			"distinct non-trivial = distinct (trie root, mode)",
+			"distinct non-trivial = distinct (trie root, block, tampering class) combinations submitted",
 		Cases: func(tier string) int {
 			if tier == "thorough" {
 				return 48000
